@@ -63,6 +63,9 @@ FAULTS = {
     "implied-instruction-with-index-name": ["pha x"],
     "undefined-width-rep": ["rep.w #1"],
     "undefined-width-lda": ["lda.l #1"],
+    "numeric-size-suffix": ["lda.32 0x10"],
+    "numeric-size-suffix-zero": ["ldx.0 #1"],
+    "numeric-size-suffix-small": ["sta.4 0x10"],
     "undefined-width-jmp-byte": ["jmp.b 0x10"],
     "undefined-width-indexed-y-byte": ["lda.b 0x10,y"],
     "undefined-width-pea-byte": ["pea.b 0x12"],
